@@ -76,7 +76,10 @@ Record graph := mkGraph {
   g_fns : PositiveMap.t fnrec;
   g_reads : PositiveMap.t (list id);       (* Global.ReadLocations *)
   g_pfx : positive -> positive -> bool;    (* strings.HasPrefix(path a, path b) *)
-  g_prank : positive -> positive           (* rank of a path string in sort.Strings order (repaired variant only) *)
+  g_prank : positive -> positive;          (* rank of a path string in sort.Strings order *)
+  g_presum : id -> bool;                   (* SummaryGraph.IsPreSummarized (predefined summary, dataflow contract) *)
+  g_labelled : id -> bool                  (* hasLabelledMarks(node): node kind that is tracked with one labelled mark per
+                                              access path of its type, and the type has access paths *)
 }.
 
 (** predicates of the taint problem and configuration *)
@@ -599,18 +602,43 @@ Section Model.
 
   Definition sort_dedup (l : list positive) : list positive := fold_right ins_path [] l.
 
-  (** access paths of the next node; [None]: no matching path, edge not followed *)
-  Definition next_aps (s j : N) (aps : list positive) (e : edgeinfo) : option (list positive) :=
+  (** access paths of the next node; [None]: no matching path, edge not followed.
+      [presum]: the edge stays inside a pre-summarized graph (its edges carry no path information: the destination is reached
+      at access path "").  [labelled]: the node the edge starts from has labelled marks; if it has none and nothing matched,
+      every out path of the edge is followed. *)
+  Definition next_aps (s j : N) (aps : list positive) (e : edgeinfo) (presum labelled : bool) : option (list positive) :=
     let computed :=
         flat_map (fun io : positive * positive =>
                     flat_map (fun ap => if g_pfx g (fst io) ap then [snd io] else []) aps)
                  (ord s j _ (e_relpath e)) in
     let computed := if c_fixaps cfg then sort_dedup computed else computed in
-    let naps := if N.eqb (e_nin e) 0 || (N.eqb (e_nin e) 1 && e_ee e) then aps else computed in
+    let naps :=
+        if N.eqb (e_nin e) 0 || (N.eqb (e_nin e) 1 && e_ee e) then (if presum then [1%positive] else aps)
+        else match computed with
+             | [] => if N.ltb 0 (e_nin e) && negb labelled then sort_dedup (map snd (e_relpath e)) else []
+             | _ => computed
+             end in
     match naps with
     | [] => None
     | _ => Some naps
     end.
+
+  Definition fn_of_node (n : id) : option id := match node_of n with Some nd => Some (n_fn nd) | None => None end.
+
+  (** [cur.Node.Graph().IsPreSummarized && nextNode.Graph() == cur.Node.Graph()] *)
+  Definition same_presum (cur : vnode) (cd : cand) : bool :=
+    match fn_of_node (v_node cur), c_node cd with
+    | Some f, Some nn => match fn_of_node nn with
+                         | Some f' => g_presum g f && Pos.eqb f f'
+                         | None => false
+                         end
+    | _, _ => false
+    end.
+
+  Definition edge_source (cur : vnode) (cd : cand) : id := match c_inter cd with Some i => i | None => v_node cur end.
+
+  Definition cand_aps (s j : N) (cur : vnode) (cd : cand) : option (list positive) :=
+    next_aps s j (v_aps cur) (c_edge cd) (same_presum cur cd) (g_labelled g (edge_source cur cd)).
 
   Definition exceeds_depth (d : N) : bool :=
     negb (Z.leb (c_maxdepth cfg) 0) && Z.ltb (c_maxdepth cfg) (Z.of_N d).
@@ -623,7 +651,7 @@ Section Model.
       match v_aps cur with
       | [] => Crash CrNoAccessPaths
       | _ =>
-          match next_aps s j (v_aps cur) (c_edge cd) with
+          match cand_aps s j cur cd with
           | None => Ok None
           | Some naps =>
               match c_node cd with
